@@ -191,8 +191,9 @@ def _master_variant_of_arg(body, op):
 
 
 def _stack_adders(b):
-    """calls in body b that add elements to self.tag_stack"""
+    """calls in body b that add elements to self.tag_stack, directly or to a vector that is then stored as the stack"""
     out = []
+    staged = _staged_stacks(b)
     for cb, t, c in b.calls():
         if c is None or not t["args"]:
             continue
@@ -201,7 +202,40 @@ def _stack_adders(b):
             a0 = t["args"][0]
             if a0.get("k") in ("copy", "move") and "field:tag_stack" in local_sources(b, a0["place"]["local"]):
                 out.append((cb, t))
+            elif a0.get("k") in ("copy", "move") and _borrowed_local(b, a0["place"]["local"]) in staged:
+                out.append((cb, t))
     return out
+
+
+def _staged_stacks(b):
+    """locals holding a vector that is later stored as the whole open-master stack (`self.tag_stack = v`)"""
+    out = set()
+    for bb, i, st in b.statements():
+        if st["k"] != "assign" or not st["place"]["proj"] or st["place"]["proj"][-1].get("name") != "tag_stack":
+            continue
+        rv = st["rv"]
+        if rv["k"] == "use" and rv["op"].get("k") in ("copy", "move") and not rv["op"]["place"]["proj"]:
+            l = rv["op"]["place"]["local"]
+            out.add(l)
+            out |= {int(x.split(":")[1]) for x in _moved_from(b, l)}
+    return out
+
+
+def _borrowed_local(b, local):
+    """the local that `local` is a (mutable) reference to, following plain moves of the reference"""
+    cur = local
+    for _ in range(4):
+        d = _def_of(b, cur)
+        if d is None:
+            return None
+        rv = d["rv"]
+        if rv["k"] == "ref" and not rv["place"]["proj"]:
+            return rv["place"]["local"]
+        if rv["k"] == "use" and rv["op"].get("k") in ("copy", "move") and not rv["op"]["place"]["proj"]:
+            cur = rv["op"]["place"]["local"]
+            continue
+        return None
+    return None
 
 
 def r_stack_end(ctx):
